@@ -93,8 +93,14 @@ def _relax(t):
 
 
 def check_field(rep: Report, rule: str, k: str, cls: str, fld: str, got, exp, why: str, witness: str = None,
-                key: str = None) -> None:
-    rep.check(_same(got, exp), rule, WHERE + ".process_" + k, f"{cls}.{fld} = {pretty(got)}"[:120],
+                key: str = None, row: Optional[Row] = None, lm: Optional[ListenerModel] = None) -> None:
+    same = _same(got, exp)
+    if not same and row is not None and lm is not None and got == ("list",) and exp[0] == "map" and exp[2][0] == "slice" \
+            and exp[2][1] == A and is_const(exp[2][2]):
+        # an empty list where the path has already established that there is no argument from that position on
+        lo, hi = _len_interval(row, lm)
+        same = hi is not None and hi <= exp[2][2][1]
+    rep.check(same, rule, WHERE + ".process_" + k, f"{cls}.{fld} = {pretty(got)}"[:120],
               f"{why}: {cls}.{fld} is bound to `{pretty(got)}`, the property requires `{pretty(exp)}`", witness=witness, key=key)
 
 
@@ -256,7 +262,8 @@ def rule_class_bindings(rep: Report, repo: Repo, rule: str) -> None:
                     w = "cpp_member(fn MyClass int str)"
                     check_field(rep, rule, k, c, "name", nf.nf(f["name"]), T(0), "method name is the first argument", w)
                     check_field(rep, rule, k, c, "parent_class", nf.nf(f["parent_class"]), T(1), "class is the second argument", w)
-                    check_field(rep, rule, k, c, "param_types", nf.nf(f["param_types"]), texts_from(2), "types are arguments 3..n in order", w)
+                    check_field(rep, rule, k, c, "param_types", nf.nf(f["param_types"]), texts_from(2), "types are arguments 3..n in order", w,
+                                row=r, lm=lm)
                     check_field(rep, rule, k, c, "params", nf.nf(f["params"]), ("list",), "parameter names come from the implementing definition only", w)
                     check_field(rep, rule, k, c, "is_constructor", nf.nf(f["is_constructor"]), const(is_ctor),
                                 "cpp_constructor entries (and only those) are constructors", "cpp_constructor(CTOR MyClass int)")
@@ -267,7 +274,7 @@ def rule_class_bindings(rep: Report, repo: Repo, rule: str) -> None:
                 check_field(rep, rule, "cpp_attr", c, "parent_class", nf.nf(f["parent_class"]), T(0), "class is the first argument", w)
                 check_field(rep, rule, "cpp_attr", c, "name", nf.nf(f["name"]), T(1), "attribute name is the second argument", w)
                 got = nf.nf(f["default_value"])
-                ok = _is_optional_arg(got, 2)
+                ok = _is_optional_arg(got, 2, r, lm)
                 rep.check(ok, rule, WHERE + ".process_cpp_attr", f"{c}.default_value = {pretty(got)}"[:110],
                           "the default value must be the third argument when present and None otherwise", witness=w)
         for r in good_rows(lm, ev, "cpp_class"):
@@ -306,16 +313,28 @@ def rule_class_bindings(rep: Report, repo: Repo, rule: str) -> None:
     rep.floor(rule, 25, "class/member field bindings")
 
 
-def _is_optional_arg(t, i) -> bool:
-    """T(i) if len(args) > i else None (in any equivalent guard form)."""
+def _is_optional_arg(t, i, r: Optional[Row] = None, lm: Optional[ListenerModel] = None) -> bool:
+    """T(i) if len(args) > i else None (in any equivalent guard form), or - on a path that has already decided the argument
+    count - the path's half of it: T(i) where len(args) > i, None where len(args) <= i."""
+    PARAMS = ("map", ("text", IT), A)
     if t[0] != "ifexp":
+        if r is not None and lm is not None:
+            lo, hi = _len_interval(r, lm)
+            if t == T(i) and lo >= i + 1:
+                return True
+            if t == NONE and hi is not None and hi <= i:
+                return True
         return False
     c, x, y = t[1], t[2], t[3]
     if x != T(i) or y != NONE:
         return False
     if c[0] == "cmp" and c[2][0] == "len" and is_const(c[3]):
-        base_ok = c[2][1] in (A, ("map", ("text", IT), A))
+        base_ok = c[2][1] in (A, PARAMS)
         return base_ok and (c[1], c[3][1]) in ((">", i), (">=", i + 1), ("==", i + 1))
+    # truthiness of args[i:]
+    rest = (("slice", A, const(i), NONE), ("slice", PARAMS, const(i), NONE), ("map", ("text", IT), ("slice", A, const(i), NONE)))
+    if c in rest or (c[0] in ("truthy", "nonempty") and c[1] in rest):
+        return True
     return False
 
 
@@ -329,12 +348,22 @@ def _len_interval(r: Row, lm: ListenerModel):
         if n in (A, ("map", ("text", IT), A)):
             lo = max(lo, iv[0])
             hi = iv[1] if hi is None else (hi if iv[1] is None else min(hi, iv[1]))
+    PARAMS = ("map", ("text", IT), A)
     for a, v in r.outcome.conds:
-        if a[0] in ("nonempty", "truthy") and nf.nf(a[1]) in (A, ("map", ("text", IT), A)):
-            if v:
-                lo = max(lo, 1)
-            else:
-                hi = 0
+        if a[0] in ("nonempty", "truthy"):
+            n = nf.nf(a[1])
+            k = None
+            if n in (A, PARAMS):
+                k = 0
+            elif n[0] == "slice" and n[1] in (A, PARAMS) and is_const(n[2]) and isinstance(n[2][1], int) and n[2][1] >= 0 and n[3] == NONE:
+                k = n[2][1]
+            elif n[0] == "map" and n[2][0] == "slice" and n[2][1] == A and is_const(n[2][2]) and n[2][3] == NONE:
+                k = n[2][2][1]
+            if k is not None:
+                if v:
+                    lo = max(lo, k + 1)
+                else:
+                    hi = k if hi is None else min(hi, k)
     return lo, hi
 
 
@@ -417,7 +446,7 @@ def rule_option_binding(rep: Report, repo: Repo, rule: str) -> None:
                 check_field(rep, rule, "option", cls, "help_text", nf.nf(f["help_text"]), T(1), "help text is the second argument", w)
                 check_field(rep, rule, "option", cls, "type", nf.nf(f["type"]), const("bool"), "options are booleans", w)
                 got = nf.nf(f["value"])
-                rep.check(_is_optional_arg(got, 2), rule, WHERE + ".process_option", f"{cls}.value = {pretty(got)}"[:110],
+                rep.check(_is_optional_arg(got, 2, r, lm), rule, WHERE + ".process_option", f"{cls}.value = {pretty(got)}"[:110],
                           "the default must be the third argument when given and None (rendered OFF) otherwise", witness="option(OPT \"help\")")
                 rep.check(cls == "OptionDocumentation", rule, WHERE + ".process_option", f"creates {cls}", "option() creates another entry kind")
     rep.floor(rule, 8, "option bindings")
